@@ -376,6 +376,9 @@ def run(ctx):
         found = True
     ctx.notes["rdwr_refused_at_open"] = skipped
     ctx.notes["known_finding_class_hits"] = kf_hits
+    # ---- C: hole histories (write / extending truncate beyond the end of the data), vlib/c08holes.py ----
+    from .. import c08holes
+    found = c08holes.run(ctx, fs, found) or found
     corr = [x for x in fa if x.kind == "corr"]
     for x in [x for x in fa if x.kind == "crash"][:2]:
         found = True
